@@ -477,7 +477,7 @@ pub fn run(tier: Tier, totals: &mut Totals) {
         &BfsOpts {
             max_depth: 64,
             max_states: 5_000_000,
-            wall: Duration::from_secs(tier.pick(30, 600)),
+            wall: Duration::from_secs(tier.pick(50, 1200)),
             threads: 16,
         },
     );
